@@ -184,7 +184,13 @@ def check(r, ctx):
                         f.write(b"previous content " * 50)
                 do_write(ww["w"], kind, path)
                 with open(path, "rb") as f:
-                    got = normalise(f.read(), fmt)
+                    raw = f.read()
+                try:
+                    got = normalise(raw, fmt)
+                except Exception as e:   # the written file is not even a well-formed document of its format
+                    raise Violation("written-file-unparsable-%s-%s" % (fmt, op[0]), "%s after %s onto %s: %d bytes: %s"
+                                    % (type(e).__name__, op[0], "an existing longer file" if op[0] == "overwrite" else
+                                       "a fresh path", len(raw), str(e)[:200]))
                 exp = ref[(si, fmt, prec, kind, si in edited)]
                 if got != exp:
                     others = any(x["key"][1:] != ww["key"][1:] for x in writers if x is not ww)
